@@ -48,7 +48,7 @@ def run(ctx):
         "is not ENDOFCHAIN, mini stream size not a multiple of 64, files > 2 GB (range-lock sector)"]
     cfgs = ctx.pick(
         ["MC_Cfb_quick_perm.cfg", "MC_Cfb_quick_dir.cfg", "MC_Cfb_quick_difat.cfg", "MC_Cfb_quick_difat2.cfg"],
-        ["MC_Cfb_quick_perm.cfg", "MC_Cfb_thorough_perm.cfg", "MC_Cfb_thorough_dir.cfg",
+        ["MC_Cfb_quick_perm.cfg", "MC_Cfb_quick_dir.cfg", "MC_Cfb_thorough_perm.cfg", "MC_Cfb_thorough_dir.cfg",
          "MC_Cfb_thorough_difat.cfg", "MC_Cfb_thorough_difat2.cfg"])
     layouts = {}
     for cfg in cfgs:
